@@ -222,6 +222,12 @@ def run(chk):
         chk.cov["traces_validated_against_impl"] += len(reqs)
         if impl[-1] != "selftest 0 live=0 fault=0":
             chk.violation("uriTestMemoryManager on the completed manager: " + impl[-1], {"request": "selftest", "impl": impl[-1], "build": fl})
+        if "asan" not in fl:
+            # sizes that do not fit 32 bits: blocks of 4 GiB and more from a lazy backend (only a few pages are ever touched)
+            hg = lib.run_lines(exe, ["huge"], chunks=1)[0]; chk.cov["evaluations"] += 1
+            if hg == "huge nomem": lib.log("C15: blocks of 4 GiB could not be obtained on the %s build; scenario skipped" % fl)
+            elif hg != "huge ok":
+                chk.violation("blocks of 4 GiB and more through the completed manager (malloc, shrink, grow back, free): " + hg[:200], {"request": "huge", "impl": hg, "build": fl})
         # ---- property oracles on the implementation's own outputs
         spec_rq = []; spec_ix = []
         for i, (rq, o) in enumerate(zip(reqs, impl)):
